@@ -23,13 +23,13 @@ def build(tier, seed, exclude):
     for typed in (True, False):
         for use_async in (False, True):
             nm = f"h_late_{'typed' if typed else 'any'}_{'async' if use_async else 'sync'}"
-            g.cond(nm, "i: int, j: int, c0: int, c1: int, c2: int", ["-1 <= i < 3 and 0 <= j < 3 and 0 <= c0 < 3 and 0 <= c1 < 3 and 0 <= c2 < 3"], f"""
+            g.cond(nm, "i: int, j: int, c0: int, c1: int, c2: int", ["-1 <= i < 3 and 0 <= j < 3 and 0 <= c0 < 4 and 0 <= c1 < 4 and 0 <= c2 < 4"], f"""
                 err = AP.c18(T.real(i), T.real(j), {typed}, {use_async}, [T.real(c0), T.real(c1), T.real(c2)])
                 return T.fail(err) if err else True
             """, timeout=to)
     # failing / stalled workflows still end (async loop): every failing subset, symbolic schedule
     params = ", ".join(f"c{i}: int" for i in range(NS)) + ", bits: int, k: int"
-    pre = [" and ".join(f"0 <= c{i} < 3" for i in range(NS)), "0 <= bits < 4 and 0 <= k <= 2"]
+    pre = [" and ".join(f"0 <= c{i} < 4" for i in range(NS)), "0 <= bits < 4 and 0 <= k <= 2"]
     ch = "[" + ", ".join(f"T.real(c{i})" for i in range(NS)) + "]"
     for shape in ("indep", "forkjoin"):
         g.cond(f"h_ends_{shape}", params, pre, f"""
@@ -46,4 +46,4 @@ def build(tier, seed, exclude):
         return False
     """, timeout=120, kind="twin")
     return g.spec(bounds={"nodes": 3, "late assignment": "every (i, j) incl. self and back edges, typed and Any fields", "loops": "sync and async",
-                          "schedule": "3-4 ternary decisions"})
+                          "schedule": "3-4 four-way decisions"})
